@@ -342,6 +342,89 @@ def rebuild_tree(root):
     return t
 
 
+# ------------------------------------------------------------------ resolution with '.' / '..' components
+def dotted_paths(rng, tree, n):
+    """component lists over the names the volume holds (any case), mixed with '.', '..', missing names, a file used as a directory"""
+    out = [['.'], ['..'], ['.', '..'], ['..', '..']]
+    def names(node):
+        return [k['name'] for k in node['children'].values()] if node['kind'] == 'dir' else []
+    for _ in range(n):
+        node, stack, parts = tree.root, [], []
+        for _ in range(rng.randint(1, 7)):
+            r = rng.random()
+            here = names(node) if node is not None and node != 'lost' else []
+            if not stack and here and r < 0.5 and rng.random() < 0.85:
+                r = 0.6            # at the root the dot components lead nowhere: mostly step down first
+            if r < 0.22:
+                parts.append('.')
+            elif r < 0.5:
+                parts.append('..')
+                node = stack.pop() if stack else 'lost'
+            elif r < 0.9 and here:
+                dirs_here = [x for x in here if node['children'][x.upper()]['kind'] == 'dir']
+                nm = rng.choice(dirs_here) if dirs_here and rng.random() < 0.7 else rng.choice(here)
+                parts.append(rng.choice([nm, nm.upper(), nm.lower()]))
+                stack.append(node)
+                node = node['children'][nm.upper()]
+            else:
+                parts.append(rng.choice(['missing', 'Nothing here.txt']))
+                node = 'lost'
+            if node == 'lost' and rng.random() < 0.6:
+                break
+        if not any('~' in q for q in parts):
+            out.append(parts)
+    return out
+
+
+def real_resolve(fs, parts):
+    """what FatPath._resolve reaches: 'NotADirectory' | 0 (nothing) | 1 (the root) | [index, [attr, size, first cluster]]"""
+    from nobodd.path import FatPath, get_cluster
+    p = FatPath(fs, '/' + '/'.join(parts))
+    try:
+        p._resolve()
+    except NotADirectoryError:
+        return 'NotADirectory'
+    if p._index is None:
+        return 0
+    if p._entry is None:
+        return 1
+    e = p._entry
+    idx = p._index.cluster if hasattr(p._index, 'cluster') else None
+    if fs.fat_type == 'fat32' and idx == fs._root:
+        idx = 0
+    return [idx, [e.attr, e.size, get_cluster(e, fs.fat_type)]]
+
+
+def probe_resolution(pair, sig, n=10):
+    ctx = pair.ctx
+    paths = dotted_paths(ctx.rng, pair.tree, n)
+    out = pair.RV.call('resolved', [pair.params, pair.mstate[0], pair.mstate[1], pair.table, [[q for q in p] for p in paths]])
+    for parts, o in zip(paths, out):
+        mres = lib.Runner.unres(o[0])
+        if mres[0] == 'ok':
+            m = mres[1] if mres[1] in (0, 1) else [mres[1][0], [mres[1][1][2], mres[1][1][3], mres[1][1][4]]]
+        else:
+            m = EXN.get(mres[1], mres[1]).replace('Error', '')
+        try:
+            with lib.time_limit(10):
+                real = real_resolve(pair.fs, parts)
+        except Exception as e:
+            real = type(e).__name__
+        ctx.stat('vol-resolve-' + ('error' if isinstance(real, str) else 'nothing' if real == 0 else 'root' if real == 1 else 'dir' if real[1][0] & 16 else 'file')
+                 + ('-dots' if any(q in ('.', '..') for q in parts) else ''))
+        if real != m:
+            ctx.violation(f'{sig}/resolve', f"FatPath('/{'/'.join(parts)}') resolves to {real}; the FatVol model (walk through the dot entries) to {m}",
+                          dict(pair.replay(), path=parts))
+            return False
+        # the statement of resolved_refines, evaluated: the walk over the records = the stack walk over the tree
+        sres = lib.Runner.unres(o[2])
+        if (mres[0] == 'ok') != (sres[0] == 'ok') or (mres[0] == 'ok' and o[1] != sres[1]) or (mres[0] != 'ok' and mres[1] != sres[1]):
+            ctx.violation(f'{sig}/resolve-refinement', f"'/{'/'.join(parts)}': record walk {mres} stands for {show_node(o[1][0]) if o[1] else None}, "
+                          f'tree walk gives {sres[0]} {show_node(sres[1][0]) if sres[0] == "ok" and sres[1] else sres[1]}', dict(pair.replay(), path=parts))
+            return False
+    return True
+
+
 def geometry(rng, roomy=False):
     ft = rng.choice(['fat12', 'fat16', 'fat32'])
     return fatimg.Geometry(ft, rng.choice([48, 72, 96]) if roomy else rng.choice([14, 22, 34, 56]), spc=rng.choice([1, 1, 2]), bps=512,
@@ -356,6 +439,8 @@ def run_history(ctx, rng, table, nops, populated, roomy):
         for _ in range(nops):
             op = fatops.gen_op(rng, p.tree, g.cs, sessions=False, big=(rng.random() < 0.05))
             if not p.step(op, 'fs.vol/history'):
+                break
+            if _ % 6 == 5 and not probe_resolution(p, 'fs.vol/history'):
                 break
     finally:
         p.close()
@@ -417,6 +502,9 @@ def run_scripts(ctx, rng, table):
                     for op in ops:
                         if not p.step(op, 'fs.vol/script:' + label, op.get('_expect')):
                             break
+                    else:
+                        if not p.unguarded:
+                            probe_resolution(p, 'fs.vol/script:' + label, 14)
                 finally:
                     p.close()
                     ctx.case((ft, spc, label), True, 'vol-script-' + label)
